@@ -304,9 +304,9 @@ pub fn run() -> i32 {
     let mut rep = Report::new(
         "cycles",
         if deep {
-            "DEEP: every containment graph over 3 structs/enums with out-degree <= 2 x all 8 struct/enum assignments (one of 10 wrapper forms per edge); every graph over 4 types with out-degree <= 2 (83 521 graphs, one assignment each); every graph over 2 types x every wrapper assignment to <= 3 edges; alias graphs over <= 3 aliases x every wrapper assignment; every inheritance graph over <= 3 interfaces (with operations, empty, bases in both orders; a loop is rejected by E032); each compiled + validated + rendered in a child process with a 5 s watchdog"
+            "DEEP: every containment graph over 3 structs/enums with out-degree <= 2 x all 8 struct/enum assignments (one of 10 wrapper forms per edge); every graph over 4 types with out-degree <= 2 (83 521 graphs, one assignment each); every graph over 2 types x every wrapper assignment to <= 3 edges; alias graphs over <= 3 aliases x every wrapper assignment; every inheritance graph over <= 3 interfaces (with operations, and over empty interfaces - where nothing but the loop can be rejected - with the bases in both orders); each compiled + validated + rendered in a child process with a 5 s watchdog"
         } else {
-            "every containment graph over 3 structs/enums with out-degree <= 2 x 2 struct/enum assignments (one of 10 wrapper forms per edge: plain, optional, sequence, dictionary key/value, result success/failure, nested, alias); every graph over 2 types x 10 wrappers (+ pairs); alias graphs over <= 3 aliases x 7 wrapper rotations; every inheritance graph over <= 3 interfaces (with operations, empty, bases in both orders; a loop is rejected by E032); each compiled + validated + rendered in a child process with a 5 s watchdog"
+            "every containment graph over 3 structs/enums with out-degree <= 2 x 2 struct/enum assignments (one of 10 wrapper forms per edge: plain, optional, sequence, dictionary key/value, result success/failure, nested, alias); every graph over 2 types x 10 wrappers (+ pairs); alias graphs over <= 3 aliases x 7 wrapper rotations; every inheritance graph over <= 3 interfaces (with operations, and over empty interfaces - where nothing but the loop can be rejected - with the bases in both orders); each compiled + validated + rendered in a child process with a 5 s watchdog"
         },
     );
     let ps = programs(deep);
@@ -357,8 +357,8 @@ pub fn run() -> i32 {
             Kind::Reject { cyclic, what } => {
                 rep.case(*cyclic, || input.clone());
                 if *cyclic && errors == 0 { rep.counterexample(&input, &format!("rejected: the {what} loop back on themselves"), "accepted without an error"); }
-                // an inheritance loop is rejected AS a loop (E032), not by whatever a later phase trips over
-                else if *cyclic && *what == "interface inheritance" && !diags.iter().any(|d| d.0 == "E032") { rep.counterexample(&input, "an E032 error about the inheritance loop", &format!("{:?}", diags.iter().map(|d| format!("{} {}", d.0, d.1)).collect::<Vec<_>>())); }
+                // (which code rejects a loop is not the property's business; the programs over EMPTY interfaces make sure that it is the
+                //  loop that is rejected and not an operation a later phase finds inherited twice)
                 if !*cyclic && errors > 0 { rep.counterexample(&input, &format!("accepted: the {what} are acyclic"), &format!("{:?}", diags.iter().map(|d| format!("{} {}", d.0, d.1)).collect::<Vec<_>>())); }
             }
             Kind::Types { n, edges, fields } => {
